@@ -1,5 +1,88 @@
 import GT.Base.JsonQ
-open Lean GT.J
+import GT.Base.QSqrt
+import GT.Model.Reflect
+import GT.Driver.C13
+open Lean GT.J GT GT.Reflect Matrix
 namespace GT.Driver.C15
-def ops : List (String × Handler) := []
+open GT.Driver.C13 (V S S_toFn withVec)
+
+def maxAbs {m n : ℕ} (M : Matrix (Fin m) (Fin n) ℚ) : ℚ :=
+  (List.finRange m).foldl (fun acc i => (List.finRange n).foldl (fun a j => max a |M i j|) acc) 0
+
+/-- materialise a matrix -/
+def SM {m n : ℕ} (M : Matrix (Fin m) (Fin n) ℚ) : Matrix (Fin m) (Fin n) ℚ :=
+  (DMat.ofMatrix M).toMatrix
+
+/-- `reflection_across` in closed form from the normal -/
+def reflectOp (j : Json) : R Json := withVec j "d" fun _ d => do
+  if mink d d == 0 then throw "DivZero"
+  return ofMat (reflMat d)
+
+/-- the literal `inv(D) J D` on the implementation's own `D` (sent exactly) and an exact inverse;
+returns how far it is from the closed form built on row 0, the orthogonality residual of the
+other rows and whether `Dinv` really is the inverse -/
+def reflectLiteralOp (j : Json) : R Json := do
+  let n ← natf j "n"
+  match n with
+  | 0 => throw "empty"
+  | m + 1 =>
+    let D ← matf (m + 1) (m + 1) j "D"
+    let Dinv ← matf (m + 1) (m + 1) j "Dinv"
+    let d : Fin (m + 1) → ℚ := D 0
+    if mink d d == 0 then throw "DivZero"
+    let lit := DMat.ofMatrix (reflLiteral Dinv D)
+    let cl := DMat.ofMatrix (reflMat d)
+    let prod := DMat.ofMatrix (Dinv * D)
+    let invOk := maxAbs (prod.toMatrix - 1) == 0
+    let orth := (List.finRange (m + 1)).foldl
+      (fun acc i => if i = 0 then acc else max acc |mink (D i) d|) (0 : ℚ)
+    return Json.mkObj [("diff", ofQ (maxAbs (lit.toMatrix - cl.toMatrix))), ("orth", ofQ orth),
+      ("inv_ok", Json.bool invOk), ("literal", ofQArr2 lit.a)]
+
+/-- `Hyperplane._compute_ideal_basis` from the implementation's `spacelike_to` matrix -/
+def hyperplaneOp (j : Json) : R Json := do
+  let n ← natf j "n"
+  match n with
+  | 0 | 1 => throw "GeometryError"
+  | m + 2 =>
+    let T ← matf (m + 2) (m + 2) j "T"
+    let normal ← vecf (m + 2) j "normal"
+    let Td := SM T
+    let rows := hyperplaneData Td normal
+    return ofMat (fun a b => rows a b)
+
+def refSpectrumOp (j : Json) : R Json := do
+  let ev ← qArr (← field j "evals")
+  let eps ← qf j "eps"
+  let vnorm ← toQ (fieldD j "vnorm" (Json.str "1"))
+  return Json.mkObj [("accept", Json.bool (fromReflectionAccepts eps ev.toList vnorm)),
+    ("spectrum_ok", Json.bool (isReflSpectrum eps ev.toList)),
+    ("argmin", match argminIdx ev.toList with | some i => Json.num (JsonNumber.fromNat i) | none => Json.null)]
+
+def fixOrderOp (j : Json) : R Json := do
+  let es ← qArr2 (← field j "es")
+  let eps ← qf j "eps"
+  let infos ← es.toList.mapM fun a =>
+    if a.size = 3 then pure (⟨a[0]!, a[1]!, a[2]!⟩ : EigInfo ℚ) else throw "expected triples"
+  let plain := (fieldD j "plain" (Json.bool false)) == Json.bool true
+  let o := if plain then fixOrderPlain eps infos else fixOrder eps infos
+  return Json.arr (o.toArray.map fun (i : ℕ) => Json.num (JsonNumber.fromNat i))
+
+/-- fixedness of a reported point under the isometry, evaluated exactly on the implementation's
+output: `max |(vM)_i v_j - (vM)_j v_i| / |v|²|M|` and the normalised Minkowski norm `⟨v,v⟩/|v|²` -/
+def fixedResidualOp (j : Json) : R Json := withVec j "v" fun n v => do
+  let M ← matf (n + 1) (n + 1) j "M"
+  let w := S (v ᵥ* M)
+  let vv := nsq v
+  if vv == 0 then throw "DivZero"
+  let cr := (List.finRange (n + 1)).foldl (fun acc a => (List.finRange (n + 1)).foldl
+    (fun b c => max b |w.toFn a * v c - w.toFn c * v a|) acc) (0 : ℚ)
+  let ww := nsq w.toFn
+  return Json.mkObj [("cross", ofQ (cr / vv)), ("norm", ofQ (mink v v / vv)),
+    ("ratio_sq", ofQ (ww / vv)), ("pairing", ofQ (dot w.toFn v / vv))]
+
+def ops : List (String × Handler) :=
+  [("c15.reflect", reflectOp), ("c15.reflect_literal", reflectLiteralOp),
+   ("c15.hyperplane", hyperplaneOp), ("c15.refl_spectrum", refSpectrumOp),
+   ("c15.fix_order", fixOrderOp), ("c15.fixed_residual", fixedResidualOp)]
 end GT.Driver.C15
